@@ -29,6 +29,10 @@ def _key(r):
 def _describe(r):
     exp, got = r["exp"], r["got"]
     def show(x):
+        if x is got and r.get("detail"):
+            return r["detail"]["got"]
+        if x is exp and r.get("detail") and x.get("ok"):
+            return "Ok(%s%s %s) = %s" % (x["cls"], ("/" + x["sub"]) if x.get("sub") else "", x.get("data"), r["detail"]["want"])
         if "panic" in x:
             return "panic(%s)" % x["panic"][:80]
         if x.get("ok") is False:
@@ -42,6 +46,9 @@ def _describe(r):
 
 def run(ctx):
     binary = ctx.build("pv-proto")
+    ctx.assume("tokens also vary payload SIZE: lists are empty / 2 / 3 elements for tokens 1 / 2 / 3, requested amounts "
+               "0 / 2 / 5, so replies shorter than, equal to and longer than an earlier request (and amount 0 with a "
+               "non-empty reply) are all enumerated; the projection compares the whole carried value (length and elements)")
     ctx.assume("payload tokens are mapped to concrete values by injective per-slot constructors in "
                "harness/pv-proto/src/apply.rs (trusted); acceptance depends on the state class and message variant only")
     ctx.assume("tables transcribed by hand from the network spec (DESIGN 3.5); leios-notify/-fetch from the module docs "
@@ -54,15 +61,16 @@ def run(ctx):
     if ctx.thorough:
         mcfg = ctx.path("MCApply3.cfg")
         src = open(os.path.join(vlib.SPEC, "proto", "MCApply.cfg")).read()
-        open(mcfg, "w").write(src.replace("Tok = {1, 2}", "Tok = {1, 2, 3}"))
+        open(mcfg, "w").write(src.replace("Tok = {1, 2, 3}", "Tok = {1, 2, 3, 4}"))
     ctx.tlc_mc("proto", "MCApply", mcfg, workers=2, required_actions=["ClientMsg", "ServerMsg"])
 
     # 2. M1: TLC's vectors -> the real State::apply
     runs = [("GenApply.cfg", None)]
     if ctx.thorough:
-        runs = [(_gen_cfg(ctx, "GenPairs3.cfg", (1, 2, 3), 0, 0, "pairs"), "pairs3"),
-                (_gen_cfg(ctx, "GenSeq10a.cfg", (1, 2), 10, 0, "seq"), "seq10a"),
-                (_gen_cfg(ctx, "GenSeq10b.cfg", (1, 2), 10, 1, "seq"), "seq10b")]
+        runs = [(_gen_cfg(ctx, "GenPairs4.cfg", (1, 2, 3, 4), 0, 0, "pairs"), "pairs4"),
+                (_gen_cfg(ctx, "GenSeq10a.cfg", (1, 2, 3), 10, 0, "seq"), "seq10a"),
+                (_gen_cfg(ctx, "GenSeq10b.cfg", (1, 2, 3), 10, 1, "seq"), "seq10b"),
+                (_gen_cfg(ctx, "GenSeq10c.cfg", (1, 2, 3), 10, 2, "seq"), "seq10c")]
     rows_all, nvec, nsteps = [], 0, 0
     for i, (cfg, tag) in enumerate(runs):
         vec = ctx.path("vectors_%s.ndjson" % (tag or "quick"))
@@ -115,7 +123,7 @@ def run(ctx):
         idx_of = {json.dumps(v, sort_keys=True): i for i, v in enumerate(src)}
         pick = next(v for v in good if idx_of[json.dumps(v, sort_keys=True)] in okrows and v["exp"]["data"][0] > 0)
         c1 = json.loads(json.dumps(pick))
-        c1["exp"]["data"][0] = 3 - c1["exp"]["data"][0] if c1["exp"]["data"][0] in (1, 2) else 1
+        c1["exp"]["data"][0] = c1["exp"]["data"][0] % 3 + 1
         rej = next(v for v in src if v["kind"] == "pair" and not v["exp"]["ok"]
                    and idx_of[json.dumps(v, sort_keys=True)] in okrows)
         c2 = json.loads(json.dumps(rej))
